@@ -265,6 +265,27 @@ func mergeConfigs(ctx context.Context, src Config, dest *Config) {
 		destFieldValue := destValue.Elem().Field(i)
 
 		if srcFieldValue.Kind() == reflect.Map {
+			if srcReplace, ok := srcFieldValue.Interface().(map[string]map[string]*ReplaceType); ok {
+				// replace-type is inherited like every other parameter: an
+				// entry of the parent applies unless the child sets the
+				// same (package path, type name) itself.
+				destReplace, _ := destFieldValue.Interface().(map[string]map[string]*ReplaceType)
+				if destReplace == nil && len(srcReplace) > 0 {
+					destReplace = map[string]map[string]*ReplaceType{}
+					destFieldValue.Set(reflect.ValueOf(destReplace))
+				}
+				for pkgPath, srcTypes := range srcReplace {
+					if destReplace[pkgPath] == nil {
+						destReplace[pkgPath] = map[string]*ReplaceType{}
+					}
+					for typeName, replacement := range srcTypes {
+						if _, exists := destReplace[pkgPath][typeName]; !exists {
+							destReplace[pkgPath][typeName] = replacement
+						}
+					}
+				}
+				continue
+			}
 			srcMap, ok := srcFieldValue.Interface().(map[string]any)
 			if !ok {
 				log.Debug().Msg("field value is not `any`, skipping merge")
